@@ -171,6 +171,12 @@ def corpus():
     out.append(case(CT_MP, F.chunked(ok1 + okf + END, [5, 9]), cl=-1, chunked=True, mem=16, access='files',
                     sched=[0, 1, 0, 0, 2, 0, 5, 0, 0, 3] * 30))
     out.append(case(CT_MP, F.chunked(ok1 + okf + END, [5, 9])[:-9], cl=-1, chunked=True, mem=16, sched=[0, 2] * 90))
+    # ---- F37: forms/json of a chunked request ignore a Content-Length sent next to it (too small / too large / 0)
+    jw = F.chunked(b'{"a": 1}', [3])
+    out.append(case('application/json', jw, cl=3, chunked=True, mem=64, access='json'))
+    out.append(case('application/json', jw, cl=0, chunked=True, mem=64, access='forms'))
+    out.append(case('application/json', jw, cl=5000, chunked=True, mem=64, access='json'))        # was 413
+    out.append(case('application/x-www-form-urlencoded', F.chunked(b'a=1&b=2', [2, 9]), cl=2, chunked=True, mem=64))
     # ---- per-part headers beyond Content-Disposition: the part's own Content-Type (with a charset Python knows, does
     # not know, or that is not a text codec), Content-Transfer-Encoding, duplicates, on TEXT parts and on uploads
     for cs in (b'utf-8', b'latin-1', b'klingon', b'x-user-defined', b'hex', b'base64', b'', b'"utf-8"', b'"klingon"',
